@@ -1670,30 +1670,14 @@ DOMNode* DOMRangeImpl::traverseTextNode( DOMNode*n, bool isLeft, int how )
         XMLSize_t startLen = XMLString::stringLen(fStartContainer->getNodeValue());
         XMLSize_t offset = getStartOffset();
 
-        if (offset == 0) {
-            if ( how != CLONE_CONTENTS )
-                n->setNodeValue(XMLUni::fgZeroLenString);
-        }
-        else {
-            XMLCh* oldNodeValue;
-            XMLCh oldTemp[4000];
-
-            if (offset >= 3999)  {
-                oldNodeValue = (XMLCh*) fMemoryManager->allocate
-                (
-                    (offset+1) * sizeof(XMLCh)
-                );//new XMLCh[offset+1];
-            }
-            else {
-                oldNodeValue = oldTemp;
-            }
-            XMLString::subString(oldNodeValue, txtValue, 0, offset, ((DOMDocumentImpl *)fDocument)->getMemoryManager());
-
-            if ( how != CLONE_CONTENTS )
-                n->setNodeValue( ((DOMDocumentImpl *)fDocument)->getPooledString(oldNodeValue) );
-
-            if (offset>= 3999)
-                fMemoryManager->deallocate(oldNodeValue);//delete[] oldNodeValue;
+        // Remove the selected tail with deleteData so that other live ranges
+        // with a boundary point in the kept part of the node stay where they
+        // are (setNodeValue would send all of them to offset 0).
+        if ( how != CLONE_CONTENTS ) {
+            if (n->getNodeType() == DOMNode::PROCESSING_INSTRUCTION_NODE)
+                ((DOMProcessingInstructionImpl*)n)->deleteData(offset, XMLString::stringLen(txtValue) - offset);
+            else
+                ((DOMCharacterData*)n)->deleteData(offset, XMLString::stringLen(txtValue) - offset);
         }
 
         if ( how==DELETE_CONTENTS )
@@ -1731,30 +1715,12 @@ DOMNode* DOMRangeImpl::traverseTextNode( DOMNode*n, bool isLeft, int how )
         XMLSize_t endLen = XMLString::stringLen(fEndContainer->getNodeValue());
         XMLSize_t offset = getEndOffset();
 
-        if (endLen == offset) {
-            if ( how != CLONE_CONTENTS )
-                n->setNodeValue(XMLUni::fgZeroLenString);
-        }
-        else {
-            XMLCh* oldNodeValue;
-            XMLCh oldTemp[4000];
-
-            if (offset >= 3999)  {
-                oldNodeValue = (XMLCh*) fMemoryManager->allocate
-                (
-                    (offset+1) * sizeof(XMLCh)
-                );//new XMLCh[offset+1];
-            }
-            else {
-                oldNodeValue = oldTemp;
-            }
-            XMLString::subString(oldNodeValue, txtValue, offset, endLen, ((DOMDocumentImpl *)fDocument)->getMemoryManager());
-
-            if ( how != CLONE_CONTENTS )
-                n->setNodeValue( ((DOMDocumentImpl *)fDocument)->getPooledString(oldNodeValue) );
-
-            if (offset>= 3999)
-                fMemoryManager->deallocate(oldNodeValue);//delete[] oldNodeValue;
+        // Remove the selected head with deleteData (see above).
+        if ( how != CLONE_CONTENTS ) {
+            if (n->getNodeType() == DOMNode::PROCESSING_INSTRUCTION_NODE)
+                ((DOMProcessingInstructionImpl*)n)->deleteData(0, offset);
+            else
+                ((DOMCharacterData*)n)->deleteData(0, offset);
         }
 
         if ( how==DELETE_CONTENTS )
